@@ -17,6 +17,9 @@ import (
 //   line 1: "// package-dir: <relative dir in repo>"
 //   rest: a Go test file; {{MODEL}} is replaced by a Go string literal holding the model JSON.
 func templateFor(verifDir, fn string) string {
+	if strings.HasPrefix(fn, "lemma M-") {
+		return filepath.Join(verifDir, "replay", "lemma_M.tmpl")
+	}
 	return filepath.Join(verifDir, "replay", reFile.ReplaceAllString(fn, "_")+".tmpl")
 }
 
